@@ -292,3 +292,22 @@ m('c17-r5-unguarded-scale', 'C17', 'C17-R5', 'build:hp', (
 m('c08-r2-helper-calls-mods-fn', 'C08', 'C08-R2', 'attr-fn:od', (
     'src/model/beatmap/attributes.rs', "            GameMode::Catch | GameMode::Mania => f64::from(self.od.value(mods, GameMods::od)),",
     "            GameMode::Catch | GameMode::Mania => {\n                fn raw(m: &GameMods, f: impl Fn(&GameMods) -> Option<f64>) -> f64 {\n                    f(m).unwrap_or(5.0)\n                }\n\n                raw(mods, GameMods::od)\n            }"))
+
+# the table-driven form of the Legacy arm (agent refactor C08-r1) with 2K and 3K swapped
+m('c08-r1-table-swapped', 'C08', 'C08-R1', 'mania_keys:Legacy:Key2',
+  ('src/model/mods.rs', "(GameModsLegacy::Key2, 2.0)", "(GameModsLegacy::Key2, 3.0)"),
+  ('src/model/mods.rs', "(GameModsLegacy::Key3, 3.0)", "(GameModsLegacy::Key3, 2.0)"),
+  diff='selftest/refactor_diffs/C08-r1.diff')
+
+# misses taken off the object count twice (the idea of seed C12-2, and the same slip in the osu fallback branch)
+m('c12-r6-double-miss-mania', 'C12', 'C12-R6', 'mania:remainder-units', (
+    'src/mania/performance/mod.rs', "                                        let remaining = n_objects - curr.total_hits();",
+    "                                        let remaining = n_remaining.saturating_sub(curr.total_hits());"))
+m('c12-r6-double-miss-osu', 'C12', 'C12-R6', 'osu:remainder-units', (
+    'src/osu/performance/mod.rs', "            let remaining = n_objects.saturating_sub(n300 + n100 + n50 + misses);",
+    "            let remaining = n_remaining.saturating_sub(n300 + n100 + n50 + misses);"))
+
+# the helper of agent refactor C19-r1, but pushing instead of the binary-search add
+m('c19-r4-helper-push', 'C19', 'C19-R4', 'effect_points', (
+    'src/taiko/convert.rs', "    effect_point.add(effect_points);", "    effect_points.push(effect_point);"),
+  diff='selftest/refactor_diffs/C19-r1.diff')
